@@ -346,6 +346,7 @@ def run_one(cfg, decisions=None, keep_events=False):
         # double: 1e-11 of the magnitude sum; single: the kernel accumulates in
         # float32, n * eps32 with a margin
         tol = 1e-11 if cfg["dtype"] == "double" else max(2e-5, 4 * n_loop * 1.2e-7)
+        floor = float(np.finfo(kernel.dtype).tiny) * 100.0 * max(1, n_loop)
         buffers = {}
         if n_impl > 0:
             scheds = make_schedules(rng, n_impl, slot_stride[:max(1, len(order))] if order else [], cfg.get("tier", "quick"))
@@ -367,7 +368,8 @@ def run_one(cfg, decisions=None, keep_events=False):
                         got = np.array(res[:base + 4], np.longdouble)
                         want = prefix[pos]
                         scale = mags[pos]
-                        bad = ~agree(got, want, tol * scale + 1e-300)
+                        # (absolute floor: sums of subnormal terms carry no relative precision)
+                        bad = ~agree(got, want, tol * scale + floor)
                         if mode == 0:
                             bad[base + 3] = False
                         if np.any(bad):
@@ -408,8 +410,9 @@ def run_one(cfg, decisions=None, keep_events=False):
                         continue
                     identical = False
                     arr = np.frombuffer(b, kernel.dtype).astype("d")
-                    if not np.all(agree(arr, ref, stol * scale_s + 1e-300)):
-                        i = int(np.argmax(~agree(arr, ref, stol * scale_s + 1e-300)))
+                    sfloor = float(np.finfo(kernel.dtype).tiny) * 100.0 * max(1, n_impl)
+                    if not np.all(agree(arr, ref, stol * scale_s + sfloor)):
+                        i = int(np.argmax(~agree(arr, ref, stol * scale_s + sfloor)))
                         fail("S2", "schedule %s leaves total[%d] = %r where the single invocation leaves %r "
                              "(mesh of %d points, strides %r)" % (name, i, float(arr[i]), float(ref[i]), n_impl,
                                                                    slot_stride[:len(order)]),
